@@ -4,6 +4,7 @@ import (
 	"fmt"
 	"math/rand"
 	"strconv"
+	"unicode"
 
 	"src.elv.sh/pkg/eval/vals"
 	"verifharness/internal/elv"
@@ -166,7 +167,7 @@ func genTemplate(r *rand.Rand, ncap int, names map[int]string) (string, func(m o
 		case 3:
 			// $N must be followed by something that cannot continue the name (any Unicode letter, digit or _ would)
 			g := r.Intn(ncap + 1)
-			ps = append(ps, grp("$"+strconv.Itoa(g), g), lit([]string{" ", "-", ".", "$$", "<"}[r.Intn(5)]))
+			ps = append(ps, grp("$"+strconv.Itoa(g), g), lit([]string{" ", "-", ".", "/", "<"}[r.Intn(5)]))
 		case 4:
 			for g, name := range names {
 				if r.Intn(2) == 0 {
@@ -220,7 +221,7 @@ func (l *lawCtx) agree(pattern, t string, ms []obsMatch, extra map[string]any, n
 		l.c.Count("law_on_ge2_matches", 1)
 	}
 	if r.Intn(2) == 0 {
-		n := 1 + r.Intn(5)
+		n := r.Intn(6) // re.md: "&max: if non-negative, limits the maximum number of results"
 		l.expectStrs("re:split-max", "re:split", between(t, ms, n), with(map[string]any{"max": maxArg(r, n)}), pattern, t)
 		if n <= len(ms) {
 			l.c.Count("law_split_max_binding", 1)
@@ -278,6 +279,12 @@ func (l *lawCtx) quoteLaw() {
 		}
 	}
 	if s == "" || !validUTF8(s) {
+		return
+	}
+	if hasFFFD(s) && !validUTF8(t) {
+		// Go's regexp (which re: wraps, per re.md) treats each byte of an invalid
+		// sequence as U+FFFD, so a literal U+FFFD also matches invalid bytes.
+		l.c.Count("skipped_fffd_literal_on_invalid_subject", 1)
 		return
 	}
 	out, err := call("re:quote", nil, s)
@@ -346,7 +353,14 @@ func (l *lawCtx) grammarLaw() {
 		}
 	}
 	if !same {
-		l.bad("re:find-vs-model", fmt.Sprintf("re:find %q %q = %s, the backtracking reference gives %s", p, t, obsStr(ms), wantStr(want)),
+		sig := "re:find-vs-model"
+		if node.hasFoldPairClass() {
+			// Go's regexp/syntax turns [Aa] into a case-folded literal and then factors it
+			// with a neighbouring alternative starting with the same letter, dropping the fold:
+			// regexp.MustCompile(`A|[Aa]..`).MatchString("aa-") is false (Go 1.23 standard library).
+			sig = "re:find-vs-model:go-regexp-foldcase-class"
+		}
+		l.bad(sig, fmt.Sprintf("re:find %q %q = %s, the backtracking reference gives %s", p, t, obsStr(ms), wantStr(want)),
 			map[string]any{"pattern": mon.Q(p), "t": mon.Q(t), "got": obsStr(ms), "want": wantStr(want)})
 		return
 	}
@@ -373,6 +387,35 @@ func (l *lawCtx) grammarLaw() {
 			l.c.Count("law_longest_or_posix_agreement", 1)
 		}
 	}
+}
+
+// hasFoldPairClass: the pattern contains a class that is exactly an upper/lower case pair.
+func (n *reNode) hasFoldPairClass() bool {
+	if n.Kind == rClass && !n.Neg {
+		set := map[rune]bool{}
+		single := true
+		for _, rg := range n.Ranges {
+			if rg[0] != rg[1] {
+				single = false
+			}
+			set[rg[0]] = true
+		}
+		if single && len(set) == 2 {
+			var rs []rune
+			for r := range set {
+				rs = append(rs, r)
+			}
+			if unicode.ToLower(rs[0]) == unicode.ToLower(rs[1]) {
+				return true
+			}
+		}
+	}
+	for _, s := range n.Subs {
+		if s.hasFoldPairClass() {
+			return true
+		}
+	}
+	return false
 }
 
 // hasPerlOnly: constructs POSIX ERE syntax does not have (lazy operators, (?: ), (?P< >)).
